@@ -54,6 +54,8 @@ var structOfFieldTypes = []reflect.Type{
 	reflect.TypeOf(za.Inner{}), reflect.TypeOf(zb.Inner{}), reflect.TypeOf(&za.Item{}), reflect.TypeOf(zb.Item{}), reflect.TypeOf(map[string]int(nil)), reflect.TypeOf(int64(0)),
 	reflect.TypeOf(map[string]za.Inner(nil)), reflect.TypeOf([]zb.Inner(nil)), reflect.TypeOf([2]za.Inner{}), reflect.TypeOf(map[string][]int(nil)), reflect.TypeOf(float32(0)), reflect.TypeOf(uint16(0)),
 	reflect.TypeOf(int8(0)), reflect.TypeOf(int16(0)), reflect.TypeOf(int32(0)), reflect.TypeOf(uint32(0)), reflect.TypeOf(uint(0)), reflect.TypeOf([]float32(nil)), reflect.TypeOf([]*za.Inner(nil)), reflect.TypeOf(map[string]*zb.Item(nil)), reflect.TypeOf([]any(nil)), reflect.TypeOf((*any)(nil)).Elem(),
+	reflect.TypeOf(uint64(0)), reflect.TypeOf([]uint64(nil)), reflect.TypeOf(map[string]uint64(nil)), reflect.TypeOf([2]uint64{}), reflect.TypeOf([]uint(nil)), reflect.TypeOf((*uint64)(nil)),
+	reflect.TypeOf([]int8(nil)), reflect.TypeOf([]uint16(nil)), reflect.TypeOf(map[string]int32(nil)), reflect.TypeOf([]int64(nil)), reflect.TypeOf(map[string]float32(nil)), reflect.TypeOf([]bool(nil)),
 }
 
 // drawStructOf builds an anonymous struct type with a seeded field list (the only way to quantify
@@ -153,7 +155,7 @@ func fill(t *rapid.T, rv reflect.Value, depth int) {
 			case 1:
 				vals = append(vals, 1<<53+1, 1<<60+7)
 			case 2:
-				vals = append(vals, 9223372036854775807, 9223372036854775801)
+				vals = append(vals, 9223372036854775807, 9223372036854775801, 1<<63, 1<<63+12345, 1<<64-1, 1<<64-1025)
 			}
 		}
 		rv.SetUint(vals[sim.Intn(t, len(vals), "uint")])
